@@ -1,5 +1,5 @@
 SPECIFICATION Spec
-CONSTANTS M = 2  MaxDepth = 2  Guarded = TRUE  GuardedProducts = TRUE  GuardedInf = TRUE
+CONSTANTS M = 2  MaxDepth = 3  Guarded = TRUE  GuardedProducts = TRUE  GuardedInf = TRUE
 INVARIANT NoPanic
 INVARIANT Enclosure
 CHECK_DEADLOCK FALSE
